@@ -3656,8 +3656,13 @@ class ControlConnection(object):
         Replace existing connection (if there is one) and close it.
         """
         with self._lock:
-            old = self._connection
-            self._connection = conn
+            if self._is_shutdown:
+                # shutdown() ran after the connection attempt's own check (e.g. during the
+                # metadata refresh that follows the connect): nobody would close this one
+                old = conn
+            else:
+                old = self._connection
+                self._connection = conn
 
         if old:
             log.debug("[control connection] Closing old connection %r, replacing with %r", old, conn)
